@@ -166,8 +166,19 @@ func (v *Env) evalForall(guard *Term, x *SExpr) *Term {
 		if len(trigs) == 0 {
 			v.fail("forall %s has no index pattern x[%s+c] to instantiate on: %s", name, name, x)
 		}
+		// prefer patterns over the current state: a pattern under old(...) fires on every read
+		// of the initial memory and is only used when nothing else is available
+		hasCur := false
+		for _, tg := range trigs {
+			if !tg.inOld {
+				hasCur = true
+			}
+		}
 		var qts []qtrig
 		for _, tg := range trigs {
+			if hasCur && tg.inOld && !v.inOld {
+				continue
+			}
 			// the array expression and the offset must not depend on the other bound variable
 			dep := false
 			for _, other := range names {
